@@ -23,3 +23,5 @@ done
 cd /repo && git checkout -- .
 # the harness binary was built against the changed tree: rebuild it against the restored one
 (cd /verif/harness && CARGO_NET_OFFLINE=true cargo build --release --offline >/dev/null 2>&1)
+# … and the generated Lean inputs were extracted from the changed tree: regenerate them
+python3 /verif/tools/extract.py >/dev/null 2>&1
